@@ -93,9 +93,14 @@ fn check_case(ctx: &mut Ctx, g: &Gram, specs: &[InputSpec]) -> Result<(), Fail> 
     for rule in &p.rules {
         for spec in specs {
             let input = realise(&p.cg, rule, spec, &alpha);
-            let (model, _) = refsem::run(&p.cg, rule, &input);
+            let (model, facts) = refsem::run(&p.cg, rule, &input);
             if matches!(model, Outcome::Diverges(_) | Outcome::Undefined(_)) {
                 ctx.class("skipped:undefined-or-diverges");
+                continue;
+            }
+            if facts.steps > 4_000 {
+                // exponential parses: the sweep would cost ~130 x N calls; bounded by work, not time
+                ctx.class("skipped:parse-needs-too-many-calls-for-a-sweep");
                 continue;
             }
             ctx.inflight(&case_json(&p.text, rule, &input));
@@ -119,7 +124,7 @@ fn check_case(ctx: &mut Ctx, g: &Gram, specs: &[InputSpec]) -> Result<(), Fail> 
 
 pub fn run(ctx: &mut Ctx) {
     let cfg = GenCfg::standard(EXTRAS);
-    let n = ctx.share(ctx.tier.pick(60_000, 2_000_000));
+    let n = ctx.share(ctx.tier.pick(60_000, 600_000));
     let strat = (grammar_strategy(cfg), proptest::collection::vec(spec_strategy(), 4));
     ctx.run_prop(n, 1, strat, |ctx, (g, specs)| check_case(ctx, g, specs));
 }
